@@ -134,6 +134,8 @@ func c19BigBase() (*c19base, error) {
 	return b, nil
 }
 
+var c19BaseTries int
+
 func c19BaseFile(comp bs.CompressionType) (*c19base, error) {
 	if comp == "big" {
 		return c19BigBase()
@@ -169,6 +171,12 @@ func c19BaseFile(comp bs.CompressionType) (*c19base, error) {
 	ptr := w.Meta.Pointers()[0]
 	data, _ := w.Data.Bytes(ptr)
 	md, _ := w.Meta.Metadata(ptr)
+	// the engine writes a flush's partitions in map order: take the layout with partition "a"
+	// first, so that an artefact id means the same bytes in every run (re-runs, replays)
+	if len(md.DataBlocks) == 2 && md.DataBlocks[0].PartitionID != "a" && c19BaseTries < 200 {
+		c19BaseTries++
+		return c19BaseFile(comp)
+	}
 	b := &c19base{data: append([]byte(nil), data...), md: &md, rows: map[string]int{}}
 	for i := range w.Rows {
 		b.rows[w.Rows[i].Info.Canon]++
